@@ -66,6 +66,9 @@ def cases(code):
             # the directory holds symbolic links to files kept elsewhere
             # under unrelated names
             "symlinks": draw(st.integers(0, 4)) == 0,
+            # files of one directory differ in pixel depth (8-bit files for
+            # slices whose values happen to fit)
+            "mixed_files": draw(st.integers(0, 2)) == 0,
             "seed": draw(st.integers(0, 1000))}
     return strat()
 
@@ -144,7 +147,12 @@ def check_case(ctx, case):
                 os.makedirs(p)
                 dirs.append(p)
                 for s in range(nsl):
-                    PIL.Image.fromarray(stack[c, s].astype(pixs[c])).save(
+                    ftype = pixs[c]
+                    if case.get("mixed_files") and stack[c, s].max() < 256 \
+                            and (s + case["seed"]) % 2 == 0:
+                        # a dim slice stored as 8-bit next to 16-bit ones
+                        ftype = "uint8"
+                    PIL.Image.fromarray(stack[c, s].astype(ftype)).save(
                         place(p, names[s], s))
         size = orient_ref.output_size(code, ncol, nrow, nsl)
         block = case.get("block")
